@@ -176,6 +176,32 @@ def base_tmpl(rng):
                            "main": sheet(FH, main)})
 
 
+def base_blockonly(rng):
+    """a template that is ONLY inserted as a block (never a flow of its own): whatever is wrong inside it can only be
+    noticed while the block is parsed for the flow that inserts it"""
+    data = _data_rows(rng, rng.randint(2, 3))
+    ids = [r["ID"] for r in data]
+    main = [
+        {"row_id": "m1", "type": "send_message", "from": "start", "message_text": "main"},
+        {"row_id": "m2", "type": "insert_as_block", "from": "m1", "message_text": "blk", "data_sheet": "data",
+         "data_row_id": rng.choice(ids), "template_arguments": "E1;N1"},
+        {"row_id": "m3", "type": "send_message", "from": "m2", "message_text": "after block"},
+    ]
+    other = [
+        {"row_id": "o1", "type": "send_message", "from": "start", "message_text": "other flow"},
+        {"row_id": "o2", "type": "wait_for_response", "from": "o1"},
+        {"row_id": "o3", "type": "send_message", "from": "o2", "condition": "yes", "message_text": "yes"},
+    ]
+    idx = [
+        {"type": "data_sheet", "sheet_name": "data"},
+        {"type": "template_definition", "sheet_name": "blk", "template_arguments": "extra;;dflt|needed;;|"},
+        {"type": "create_flow", "sheet_name": "main"},
+        {"type": "create_flow", "sheet_name": "other"},
+    ]
+    return wb_new("blockonly", {"content_index": _idx(idx), "data": sheet(DATA_H, data), "blk": sheet(FH, copy.deepcopy(TMPL_ROWS)),
+                                "main": sheet(FH, main), "other": sheet(FH, other)})
+
+
 def base_genindex(rng):
     from .flows import compile_index
 
@@ -401,7 +427,7 @@ def base_redef(rng):
 
 
 BASES = [base_plain, base_blocks, base_multi, base_sugar, base_tmpl, base_genindex, base_trig, base_models, base_ops,
-         base_webhook, base_nested, base_redef]
+         base_webhook, base_nested, base_redef, base_blockonly]
 
 
 def all_bases(seed: int):
